@@ -835,7 +835,7 @@ class FnAnalysis:
         if k == 'un':
             return ('un', rv['op'], self.operand(rv['x'], at))
         if k == 'cast':
-            return ('cast', rv['ck'], rv['ty'], self.operand(rv['x'], at))
+            return ('cast', rv['ck'], rv['ty'], self.operand(rv['x'], at), rv.get('from', ''))
         if k == 'discr':
             pe = self.place_expr(rv['p'], at)
             if pe[0] == 'local':
